@@ -221,7 +221,9 @@ def render_objlib(m, rng=None):
         nm = c['name']
         us = 'foo_' + uscore(nm[3:])
         h.append('typedef struct _%s %s;' % (nm, nm))
-        h.append('struct _%s {\n  %s parent_instance;\n  gint priv_count;\n};' % (nm, c['pstruct']))
+        # some instance structures carry an anonymous union or structure member (they become <union>/<record> children of <class>)
+        extra = {0: '  union {\n    gint i;\n    gdouble d;\n  } u;\n', 1: '  struct {\n    gint a;\n    gint b;\n  } s;\n'}.get(len(nm) % 4, '')
+        h.append('struct _%s {\n  %s parent_instance;\n  gint priv_count;\n%s};' % (nm, c['pstruct'], extra))
         if c['class_struct']:
             h.append('typedef struct _%sClass %sClass;' % (nm, nm))
             h.append('struct _%sClass {\n  %sClass parent_class;' % (nm, c['pstruct']))
